@@ -5,7 +5,7 @@ import core, semmc, runner
 from astlib import *
 from cases import *
 
-OPS = [o for o in UN_BOOL + UN_TIMED + BIN_BOOL + ["sinceT", "untilT"] if o not in ("iff", "xor")]
+OPS = [o for o in UN_BOOL + UN_TIMED + BIN_BOOL + ["sinceT", "untilT", "unlessT"] if o not in ("iff", "xor")]
 
 
 def main():
@@ -107,7 +107,7 @@ def main():
                 nballs += 1
     # ---- dense time (offline): sign of the returned step function against Dense!SatC
     dcases = []
-    DOPS = ["not", "and", "or", "implies", "once", "hist", "ev", "alw", "since", "until", "onceT", "histT", "evT", "alwT", "sinceT", "untilT"]
+    DOPS = ["not", "and", "or", "implies", "once", "hist", "ev", "alw", "since", "until", "onceT", "histT", "evT", "alwT", "sinceT", "untilT", "unlessT"]
     for i in range(n // 4):
         S = rng.choice([1, 2])
         g = Gen(rng, vars_=rng.choice([("x",), ("x", "y")]), S=S, ops=DOPS, ivs=[(0, 1), (1, 2), (0, 3), (2, 2)], bool_atoms=False,
